@@ -43,65 +43,115 @@ def classify(msg):
     return hits[0] if len(hits) == 1 else ("ambiguous:" + "|".join(hits) if hits else "unknown:" + msg[:60])
 
 
-def build(nf, f):
-    nixio = _W["nixio"]
+def _make_dim(da, d):
+    unit = UNIT[d["unit"]]
+    if d["kind"] == "range":
+        dim = da.append_range_dimension(ticks=[1.0, 2.0, 3.0], unit=unit)
+    elif d["kind"] == "sampled":
+        dim = da.append_sampled_dimension(0.5, unit=unit)
+    else:
+        dim = da.append_set_dimension(labels=["a", "b", "c"])
+    _set_dim(dim, d)
+    return dim
+
+
+def _set_dim(dim, d):
+    """Brings one descriptor into the abstract state d (API where it accepts it, beneath it where it refuses)."""
+    if d["kind"] == "range":
+        if d["ticks"] == "ok":
+            dim.ticks = [1.0, 2.0, 3.0]
+        elif d["ticks"] == "short":
+            dim.ticks = [1.0, 2.0]
+        elif d["ticks"] == "none":
+            dim.ticks = []
+        elif d["ticks"] == "unsorted":
+            dim._h5group.write_data("ticks", [3.0, 1.0, 2.0])     # the setter refuses: beneath the API
+        if dim.unit != UNIT[d["unit"]]:
+            dim.unit = UNIT[d["unit"]]
+    elif d["kind"] == "sampled":
+        want = {"pos": 0.5, "none": None, "neg": -1.0}[d["interval"]]
+        if dim.sampling_interval != want:
+            dim.sampling_interval = want
+        if dim.unit != UNIT[d["unit"]]:
+            dim.unit = UNIT[d["unit"]]
+    else:
+        if d["labels"] == "short":
+            dim.labels = ["a"]
+        elif d["labels"] == "ok":
+            dim.labels = ["a", "b", "c"]
+
+
+def _plain(da):
+    for _ in da.shape:
+        da.append_set_dimension()
+    return da
+
+
+def build_base(nf, base):
+    """The well-formed file of the given descriptor kinds; returns the handles by abstract object name."""
     blk = nf.create_block("block", "t")
     objs = {"block": blk, "group": blk.create_group("group", "t"), "source": blk.create_source("source", "t"),
             "section": nf.create_section("section", "t")}
-    for a in ("a1", "a2"):
-        rank = 1 if a == "a1" else 2
-        da = blk.create_data_array(a, "t", data=np.zeros((3,) * rank))
-        for d in f[a]["dims"]:
-            unit = UNIT[d["unit"]]
-            if d["kind"] == "range":
-                dim = da.append_range_dimension(ticks=[1.0, 2.0, 3.0], unit=unit)
-                if d["ticks"] == "short":
-                    dim.ticks = [1.0, 2.0]
-                elif d["ticks"] == "none":
-                    dim.ticks = []
-                elif d["ticks"] == "unsorted":
-                    dim._h5group.write_data("ticks", [3.0, 1.0, 2.0])     # the setter refuses: beneath the API
-            elif d["kind"] == "sampled":
-                dim = da.append_sampled_dimension(0.5, unit=unit)
-                if d["interval"] == "none":
-                    dim.sampling_interval = None
-                elif d["interval"] == "neg":
-                    dim.sampling_interval = -1.0
-            else:
-                dim = da.append_set_dimension(labels=["a", "b", "c"])
-                if d["labels"] == "short":
-                    dim.labels = ["a"]
-                elif d["labels"] == "none":
-                    dim._h5group.delete("labels") if dim._h5group.has_data("labels") else None
+    good = lambda k: {"kind": k, "ticks": "ok", "labels": "ok", "interval": "pos", "unit": "none" if k == "set" else "s"}  # noqa
+    for a, mix in (("a1", base["m1"]), ("a2", base["m2"])):
+        da = blk.create_data_array(a, "t", data=np.zeros((3,) * len(mix)))
+        for k in mix:
+            _make_dim(da, good(k))
         objs[a] = da
-    t = f["tag"]
-    tag = blk.create_tag("tag", "t", [1.0] * max(t["poslen"], 1))
-    if t["poslen"] == 0:
-        tag.position = []
-    if t["extlen"] > 0:
-        tag.extent = [1.0] * t["extlen"]
-    tag.units = [TAGUNIT[u] for u in t["units"]] or None
-    tag.references.append(objs[t["ref"]])
+    ref = objs[base["ref"]]
+    rank = len(ref.shape)
+    units = ["" if d.dimension_type.value == "set" else "s" for d in ref.dimensions]
+    tag = blk.create_tag("tag", "t", [1.0] * rank)
+    tag.extent = [1.0] * rank
+    tag.units = units
+    tag.references.append(ref)
     objs["tag"] = tag
-    m = f["mtag"]
-    def plain(da):
-        for _ in da.shape:
-            da.append_set_dimension()
-        return da
-    pos = plain(blk.create_data_array("positions", "t", data=np.ones((2, m["posdim"]))))
+    pos = _plain(blk.create_data_array("positions", "t", data=np.ones((2, rank))))
     mt = blk.create_multi_tag("mtag", "t", pos)
-    if m["extdim"] > 0:
-        rows = 2 if m["extrows"] == "same" else 3
-        mt.extents = plain(blk.create_data_array("extents", "t", data=np.ones((rows, m["extdim"]))))
-    mt.units = [TAGUNIT[u] for u in m["units"]] or None
-    mt.references.append(objs[m["ref"]])
+    mt.extents = _plain(blk.create_data_array("extents", "t", data=np.ones((2, rank))))
+    mt.units = units
+    mt.references.append(ref)
     objs["mtag"] = mt
-    for e, fl in f["flags"].items():
-        if not fl["hasType"]:
-            objs[e]._h5group.set_attr("type", None)
-        if not fl["hasName"]:
-            objs[e]._h5group.set_attr("name", None)
+    objs["_n"] = 0
     return objs
+
+
+def apply_injection(nf, objs, inj, f):
+    """Applies one injection to the open file: the touched attribute takes its value in the final abstract file f."""
+    blk = objs["block"]
+    obj, what = inj["obj"], inj["what"]
+    objs["_n"] += 1
+    if what == "no_type":
+        objs[obj]._h5group.set_attr("type", None)
+    elif what == "no_name":
+        objs[obj]._h5group.set_attr("name", None)
+    elif obj in ("a1", "a2"):
+        da = objs[obj]
+        dims = f[obj]["dims"]
+        if what in ("dim_missing", "dim_surplus"):
+            da.delete_dimensions()
+            for d in dims:
+                _make_dim(da, d)
+        elif inj["d"] <= len(dims) and inj["d"] <= len(da.dimensions):
+            # (a descriptor that a later dim_missing removes again does not exist in the final file: nothing to set)
+            _set_dim(da.dimensions[inj["d"] - 1], dims[inj["d"] - 1])
+    elif obj == "tag":
+        t, tag = f["tag"], objs["tag"]
+        if what in ("no_position", "pos_short", "pos_long"):
+            tag.position = [1.0] * t["poslen"]
+        elif what in ("ext_short", "ext_long"):
+            tag.extent = [1.0] * t["extlen"]
+        else:
+            tag.units = [TAGUNIT[u] for u in t["units"]] or None
+    elif obj == "mtag":
+        m, mt = f["mtag"], objs["mtag"]
+        if what in ("pos_short", "pos_long"):
+            mt.positions = _plain(blk.create_data_array("positions%d" % objs["_n"], "t", data=np.ones((2, m["posdim"]))))
+        elif what in ("ext_dim_short", "ext_rows"):
+            rows = 2 if m["extrows"] == "same" else 3
+            mt.extents = _plain(blk.create_data_array("extents%d" % objs["_n"], "t", data=np.ones((rows, m["extdim"]))))
+        else:
+            mt.units = [TAGUNIT[u] for u in m["units"]] or None
 
 
 def replay_one(vec):
@@ -119,16 +169,27 @@ def replay_one(vec):
     nf = nixio.File.open(path, nixio.FileMode.Overwrite)
     try:
         try:
-            objs = build(nf, f)
+            objs = build_base(nf, vec["cfg"]["base"])
+            # a validation of the consistent file first, then the injections one by one on the open file, each
+            # followed by a validation: whatever the validator remembers between runs is warm
+            first = nf.validate()
+            if first["errors"]:
+                finding("wellformed_base_has_errors", {"errors": {repr(k)[:40]: v[:2] for k, v in first["errors"].items()}})
+                return res
+            for k, i in enumerate(inj):
+                apply_injection(nf, objs, i, f)
+                if k < len(inj) - 1:
+                    nf.validate()
         except Exception as exc:  # noqa
             raise core.MachineryError("cannot build the abstract file %r: %r" % (inj, exc))
-        ids = {o.id: e for e, o in objs.items()}
-        aux = {nf.blocks[0].data_arrays[n].id: n for n in ("positions", "extents") if n in nf.blocks[0].data_arrays}
+        ids = {o.id: e for e, o in objs.items() if e != "_n"}
+        aux = {a.id: a._h5group.name for a in nf.blocks[0].data_arrays if a._h5group.name.startswith(("positions", "extents"))}
         try:
             out = nf.validate()
         except Exception as exc:  # noqa
             finding("validate_raises_%s" % type(exc).__name__, {"raised": repr(exc)[:200]})
             return res
+        objs.pop("_n", None)
         got = {e: set() for e in objs}
         for obj, msgs in out["errors"].items():
             oid = getattr(obj, "id", None)
